@@ -639,6 +639,12 @@ class FuncAdd(ValueFunc):
                 return dateFromNumber(
                     to_oa_date(a.value) + args.getAsDecimal("b").value
                 )
+            except OverflowError:
+                raise CklRuntimeError(
+                    ValueString("ERROR"),
+                    "Number too large for decimal arithmetic",
+                    pos,
+                )
             except CklRuntimeError as e:
                 e.pos = pos
                 raise
@@ -4100,6 +4106,12 @@ class FuncSub(ValueFunc):
                 return dateFromNumber(
                     to_oa_date(a.value) - args.getAsDecimal("b").value
                 )
+            except OverflowError:
+                raise CklRuntimeError(
+                    ValueString("ERROR"),
+                    "Number too large for decimal arithmetic",
+                    pos,
+                )
             except CklRuntimeError as e:
                 e.pos = pos
                 raise
@@ -4253,14 +4265,21 @@ class FuncSum(ValueFunc):
             if skipvalue:
                 continue
 
-            if value.isInt():
-                result += value.value
-            elif value.isDecimal():
-                result += value.value
-                decimalrequired = True
-            else:
+            try:
+                if value.isInt():
+                    result += value.value
+                elif value.isDecimal():
+                    result += value.value
+                    decimalrequired = True
+                else:
+                    raise CklRuntimeError(
+                        ValueString("ERROR"), "Cannot sum " + value.type(), pos
+                    )
+            except OverflowError:
                 raise CklRuntimeError(
-                    ValueString("ERROR"), "Cannot sum " + value.type(), pos
+                    ValueString("ERROR"),
+                    "Number too large for decimal arithmetic",
+                    pos,
                 )
 
         if decimalrequired:
